@@ -119,8 +119,24 @@ pub fn run(args: &Args) {
         let nthreads = 2 + rng.below(7) as usize;
         let mut pool_texts = texts(&mut rng, 12);
         // every 4th round: contention on one plugin — all texts rewritten by the same input-text plugin at different offsets
-        let contention = round % 4 == 2;
-        if contention {
+        // every other 4th round: contention on the path-rewrite plugins -- numerals with well-formed and ill-formed separators
+        // (the numeric joiner restarts a run without the offending separator) next to katakana OOV runs, so that per-call
+        // scratch state of a rewrite plugin that is shared between tokenizers shows up (seeded change C18-m15)
+        let rewrite_contention = round % 4 == 0;
+        let contention = round % 4 == 2 || rewrite_contention;
+        if rewrite_contention {
+            let num = ["1,000", "1,23", "1.2.3", "12,345.6", "1,2", "3.14", "1.", ",5", "二千", "1,000,00", "1,000.5", "2.3.4,5", "1,000,000", "0.5", "1,,2", "三.五"];
+            let sep = ["に", "円", "。", "アイウエ", "xx", " ", "と"];
+            for t in pool_texts.iter_mut() {
+                let k = 3 + rng.below(6);
+                let mut s = String::new();
+                for _ in 0..k {
+                    s.push_str(*rng.pick(&num[..]));
+                    s.push_str(*rng.pick(&sep[..]));
+                }
+                *t = s;
+            }
+        } else if contention {
             let pre = ["", "a", "東", "ア。", "1の"];
             let ym = ["東京(とうきょう)", "京都（きょうと）", "東（ひがし）", "都(と)", "ＡＢＣ", "ｱｲｳ", "ーーー"];
             for t in pool_texts.iter_mut() {
@@ -221,7 +237,7 @@ pub fn run(args: &Args) {
         );
         sink.tag(&format!("threads={}", nthreads));
         if contention {
-            sink.tag("contention_round");
+            sink.tag(if rewrite_contention { "contention_round_path_rewrite" } else { "contention_round" });
         }
         let nontrivial = streams.iter().filter(|s| !s.is_empty()).count() >= 2;
         let id = if contention {
